@@ -208,12 +208,15 @@ inductive BStep {α : Type} : BState α → BState α → Prop
 
 def BFinal {α : Type} (s : BState α) : Prop := s.fedClosed = true ∧ AllDone s.b0 ∧ AllDone s.b1
 
+/-- work left in the feeder: an item still to be sent to both branches costs both pushes and what
+    it causes in each branch; the item already sent to branch 0 (`turn`) only the second half -/
+def feedW {α : Type} (w0 w1 : α → Nat) : Bool → List α → Nat
+  | true, t :: ts => 1 + w1 t + sumMap (fun x => 2 + w0 x + w1 x) ts
+  | true, [] => 0
+  | false, ts => sumMap (fun x => 2 + w0 x + w1 x) ts
+
 def bMu {α : Type} (s : BState α) : Nat :=
-  let w0 := wItem (fsOf s.b0)
-  let w1 := wItem (fsOf s.b1)
-  (match s.turn, s.todo with
-    | true, t :: ts => 1 + w1 t + sumMap (fun x => 2 + w0 x + w1 x) ts
-    | _, ts => sumMap (fun x => 2 + w0 x + w1 x) ts)
+  feedW (wItem (fsOf s.b0)) (wItem (fsOf s.b1)) s.turn s.todo
   + (if s.fedClosed then 0 else 1) + mu s.b0 + mu s.b1
 
 def headInClosed {α : Type} : List (Cell α) → Bool
@@ -233,7 +236,13 @@ def bInit {α : Type} (input : List α) (st0 st1 : List (Nat × (α → List α)
 /-! ## §4 the histogram bucket loop
     `for bucket := floor(min/i)*i; bucket <= max; bucket += i { … out <- … }` -/
 
-def HStep (i max : Nat) (b b' : Nat) : Prop := b ≤ max ∧ b' = b + i
+/-- The loop as it was written: `add b` is `bucket + i` as the machine computes it.  In exact
+    arithmetic `add b = b + i`; in float64 `add b = b` as soon as `i` is below half the spacing of
+    floats around `b` (for b ≥ 2^53 already i = 1), and the loop never ends. -/
+def HStepU (add : Nat → Nat) (max b b' : Nat) : Prop := b ≤ max ∧ b' = add b
+
+/-- The loop as repaired: `if bucket+i <= bucket { break }` — another round only if the bucket grew. -/
+def HStepG (add : Nat → Nat) (max b b' : Nat) : Prop := b ≤ max ∧ b' = add b ∧ b < add b
 
 /-- number of buckets emitted for values between lo and hi (lo ≤ hi) with interval i > 0 -/
 def histBuckets (i lo hi : Nat) : Nat := hi / i - lo / i + 1
@@ -257,12 +266,27 @@ inductive SrcStep : SrcState → SrcState → Prop
       SrcStep s { s with stopped := true }
   | finish {s : SrcState} : s.stopped = false → s.pending = false → ¬ s.pos < s.total →
       SrcStep s { s with stopped := true }
-  | send {s : SrcState} : s.stopped = false → s.pending = true →
+  | send {s : SrcState} : s.stopped = false → s.pending = true → s.pos < s.total →
       SrcStep s { s with pending := false, pos := s.pos + 1, emitted := s.emitted + 1 }
-  | cancel {s : SrcState} : SrcStep s { s with cancelled := true }
+  | cancel {s : SrcState} : s.cancelled = false → SrcStep s { s with cancelled := true }
 
 def srcMu (s : SrcState) : Nat :=
   (if s.stopped then 0 else 1) + 2 * (s.total - s.pos) + (if s.pending then 0 else 1) + (if s.cancelled then 0 else 1)
+
+def srcInit (total : Nat) : SrcState :=
+  { pos := 0, total := total, pending := false, cancelled := false, emitted := 0, stopped := false }
+
+/-- one-to-one branch weights for the measure of the as-written both (§2) -/
+def wbuf : Nat → Nat → Nat
+  | 0, _ => 0
+  | k + 1, l => 2 * l + wbuf k l
+
+def fw : List FCell → Nat
+  | [] => 0
+  | c :: r => wbuf c.buf r.length + (if c.hand then 2 * r.length - 1 else 0) + fw r
+
+def wMu (s : WState) : Nat :=
+  wbuf s.todo (s.b0.length + s.b1.length) + (if s.turn then 0 else 2 * s.b0.length) + fw s.b0 + fw s.b1
 
 /-! ## §6 exit paths of pipeline.Run / Resume -/
 
@@ -312,7 +336,7 @@ end Gen
 
 /-- abstract graph families; items are vertices or edges identified by an index -/
 inductive Fam where
-  | ring | star | iso
+  | ring | star | iso | huge
   deriving DecidableEq, Repr
 
 structure Item where
@@ -328,12 +352,13 @@ def allV (fam : Fam) (n : Nat) : List Item :=
   | .ring => (List.range n).map vtx
   | .star => (List.range (n + 1)).map vtx
   | .iso => (List.range n).map vtx
+  | .huge => (List.range n).map vtx
 
 def allE (fam : Fam) (n : Nat) : List Item :=
   match fam with
   | .ring => (List.range n).map edg
   | .star => (List.range n).map (fun i => edg (i + 1))
-  | .iso => []
+  | _ => []
 
 /-- ring: e_i : i → (i+1) mod n.  star: e_i : 0 → i (1 ≤ i ≤ n). -/
 def outEdges (fam : Fam) (n : Nat) (x : Item) : List Item :=
@@ -341,14 +366,14 @@ def outEdges (fam : Fam) (n : Nat) (x : Item) : List Item :=
   match fam with
   | .ring => if x.i < n then [edg x.i] else []
   | .star => if x.i == 0 then (List.range n).map (fun i => edg (i + 1)) else []
-  | .iso => []
+  | _ => []
 
 def inEdges (fam : Fam) (n : Nat) (x : Item) : List Item :=
   if x.isEdge then [] else
   match fam with
   | .ring => if x.i < n then [edg ((x.i + n - 1) % n)] else []
   | .star => if x.i == 0 then [] else [edg x.i]
-  | .iso => []
+  | _ => []
 
 def edgeTo (fam : Fam) (n : Nat) (e : Item) : Item :=
   match fam with
@@ -373,8 +398,14 @@ def stepIn (fam : Fam) (n : Nat) (x : Item) : List Item :=
 /-- number of distinct values of `i mod 7` among the items -/
 def termCount (xs : List Item) : Nat := ((xs.map (fun x => x.i % 7)).eraseDups).length
 
-def minI (xs : List Item) : Nat := xs.foldl (fun m x => min m x.i) (xs.headD ⟨false, 0⟩).i
-def maxI (xs : List Item) : Nat := xs.foldl (fun m x => max m x.i) 0
+/-- the numeric field `x` of an element: its index, except in the family `huge` (10^16, beyond 2^53) -/
+def xOf (fam : Fam) (x : Item) : Nat := if fam == .huge then 10 ^ 16 else x.i
+
+def minI (fam : Fam) (xs : List Item) : Nat := xs.foldl (fun m x => min m (xOf fam x)) (xOf fam (xs.headD ⟨false, 0⟩))
+def maxI (fam : Fam) (xs : List Item) : Nat := xs.foldl (fun m x => max m (xOf fam x)) 0
+
+/-- float64: does `bucket + i` fail to advance for the values of this family?  (10^16 + 1 = 10^16) -/
+def histStalls (fam : Fam) (i : Nat) : Bool := fam == .huge && i < 2
 
 /-- dedupe items (distinct on _gid) -/
 def dedup (xs : List Item) : List Item := xs.eraseDups
@@ -399,7 +430,11 @@ def applyStep (fam : Fam) (n : Nat) (xs : List Item) : StepK → List Item
   | .distinct => dedup xs
   | .aggcount => [vtx 0]
   | .aggterm => (List.range (termCount xs)).map vtx
-  | .agghist i => if xs.isEmpty then [] else (List.range (histBuckets i (minI xs) (maxI xs))).map vtx
+  | .agghist i =>
+    -- interval 0: floor(min/0)*0 is NaN, `NaN <= max` is false, the loop body never runs
+    if xs.isEmpty || i == 0 then []
+    else if histStalls fam i then [vtx 0]     -- one bucket, then the guard leaves the loop
+    else (List.range (histBuckets i (minI fam xs) (maxI fam xs))).map vtx
   | .agg2 => vtx 0 :: (List.range (termCount xs)).map vtx
 
 inductive Outcome where
@@ -447,15 +482,18 @@ def typeAfter (cur : Bool) : StepK → Bool
   | _ => cur
 
 /-- MODEL outcome of running `steps` with the engine as deployed (GripGen.BuffersC07 says whether
-    both drains while feeding and whether interval 0 is rejected), and SPEC outcome (always done). -/
+    both drains while feeding and whether the histogram loop has the advance guard); the SPEC
+    outcome is the same function with both flags true (always `done`). -/
 def runModel (concurrentBoth histGuard : Bool) (fam : Fam) (n : Nat) (steps : List StepK) : Outcome :=
   let rec go (ss : List StepK) (xs : List Item) (cur : Bool) : Outcome :=
     match ss with
     | [] => .done xs.length
     | s :: rest =>
       match s with
-      | .agghist 0 => if histGuard then .err else .timeout
-      | .agghist _ => if xs.isEmpty then .skip else go rest (applyStep fam n xs s) (typeAfter cur s)
+      | .agghist i =>
+        if xs.isEmpty then .skip   -- the real code indexes an empty slice (a crash: property C06)
+        else if i != 0 && histStalls fam i && !histGuard then .timeout
+        else go rest (applyStep fam n xs s) (typeAfter cur s)
       | .both => if !concurrentBoth && bothHangs fam n xs false cur then .timeout
                  else go rest (applyStep fam n xs s) (typeAfter cur s)
       | .bothE => if !concurrentBoth && bothHangs fam n xs true cur then .timeout
